@@ -200,7 +200,30 @@ func ferun(c *Ctx) {
 			lines = 6
 		}
 		dir := filepath.Join(c.Tmp, fmt.Sprintf("run%d", pi))
-		writeProject(dir, p)
+		// where mage is started from: inside the magefile directory; from a directory outside the magefile's module
+		// with -d; or above a `magefiles` directory that is its own module
+		layout := []string{"inside", "d-from-outside", "magefiles-own-module", "inside"}[(pi+r.Intn(2))%4]
+		startCwd, dflags := dir, []string{}
+		switch layout {
+		case "d-from-outside":
+			writeProject(dir, p)
+			startCwd = filepath.Join(c.Tmp, fmt.Sprintf("elsewhere%d", pi))
+			os.MkdirAll(startCwd, 0o755)
+			dflags = []string{"-d", dir}
+			if r.Bool() {
+				dflags = []string{"-d", filepath.Join("..", filepath.Base(dir))}
+			}
+		case "magefiles-own-module":
+			writeProject(filepath.Join(dir, "magefiles"), p)
+		default:
+			writeProject(dir, p)
+		}
+		runAny := func(exe string, env []string, args ...string) runRes {
+			if exe == mageBin {
+				return runCmd(startCwd, env, mageBin, append(append([]string{}, dflags...), args...)...)
+			}
+			return runCmd(dir, env, exe, args...)
+		}
 		fields := commentFields(p)
 		env := baseEnv(home)
 		plat := "env-platform=inherit"
@@ -212,7 +235,7 @@ func ferun(c *Ctx) {
 		}
 		// compile once, statically
 		static := filepath.Join(dir, "static.bin")
-		cr := runCmd(dir, env, mageBin, "-compile", static)
+		cr := runAny(mageBin, env, "-compile", static)
 		if cr.status != 0 {
 			// not buildable: report (the oracle says whether the package should have been rejected)
 			c.Emit(J{"op": "fe.run", "project": p, "fields": fields, "words": []string{}, "conv": J{}}, J{"build": classifyMsg(strings.TrimPrefix(cr.stderr, "Error: ")), "status": cr.status}, "not-built")
@@ -263,10 +286,10 @@ func ferun(c *Ctx) {
 					}
 					hw = append(hw, w)
 				}
-				l := runCmd(dir, env, exe, "-l")
+				l := runAny(exe, env, "-l")
 				help := [][]interface{}{}
 				for _, w := range hw {
-					h := runCmd(dir, env, exe, "-h", w)
+					h := runAny(exe, env, "-h", w)
 					help = append(help, []interface{}{h.stdout, h.status})
 				}
 				// the same list with the colour variables set
@@ -281,9 +304,9 @@ func ferun(c *Ctx) {
 						cenv = append(cenv, kv[0]+"="+kv[1])
 					}
 				}
-				lc := runCmd(dir, cenv, exe, "-l")
+				lc := runAny(exe, cenv, "-l")
 				impl := J{"list": l.stdout, "listColor": lc.stdout, "help": help}
-				impl["usage"] = runCmd(dir, env, exe, "-h").stdout // through mage this is the front end's own usage: not compared
+				impl["usage"] = runAny(exe, env, "-h").stdout // through mage this is the front end's own usage: not compared
 				if l.status != 0 {
 					impl["listStatus"] = l.status
 					impl["stderr"] = l.stderr
@@ -350,17 +373,17 @@ func ferun(c *Ctx) {
 			switch r.Intn(6) {
 			case 0:
 				way = "mage"
-				rr = runCmd(dir, runEnv, mageBin, argv...)
+				rr = runAny(mageBin, runEnv, argv...)
 			case 1:
 				way = "hashfast"
-				rr = runCmd(dir, append(runEnv, "MAGEFILE_HASHFAST=1"), mageBin, argv...)
+				rr = runAny(mageBin, append(runEnv, "MAGEFILE_HASHFAST=1"), argv...)
 			default:
 				rr = runCmd(dir, runEnv, static, argv...)
 			}
 			calls := parseCalls(rr.stdout)
 			impl := J{"calls": calls, "status": rr.status, "stop": classifyStop(rr), "listed": strings.Contains(rr.stdout, "Targets:")}
 			in := J{"op": "fe.run", "project": p, "fields": fields, "words": words, "conv": convRecord(words), "fail": fail, "ignoreDefault": ignoreDefault}
-			c.Emit(in, impl, "way="+way, fmt.Sprintf("targets=%d", nt), "stop="+fmt.Sprint(impl["stop"]), plat, fmt.Sprintf("foreign-files=%v", len(p.Foreign) > 0))
+			c.Emit(in, impl, "way="+way, fmt.Sprintf("targets=%d", nt), "stop="+fmt.Sprint(impl["stop"]), plat, fmt.Sprintf("foreign-files=%v", len(p.Foreign) > 0), "start="+layout)
 		}
 		os.RemoveAll(dir)
 	}
